@@ -315,13 +315,13 @@ theorem notify_polls_immediately :
 /-- in a run of the state machine against a scripted cache: when a Serial Notify arrives (or the
     wait expires) the very next transport action is the Serial Query, sent at the moment of arrival -/
 theorem notify_then_query (ver : Nat) (s : Sock) (now : Int) (ev : Ev) (rest : List Ev)
-    (h : ev.ev = .serialNotify ∨ ev.ev = .timeout) :
+    (h : ev.ev = .serialNotify ∨ ev.ev = .timeout) (hf : ev.frags = []) :
     ∃ tl, fsmEstablished ver s now (ev :: rest) =
       .wait (waitTimeout s now) now :: .send 1 (arrival ev now (waitTimeout s now)) :: tl := by
   have hs : establishedStep ev.ev = .sendSerialQuery := by
     rcases h with h | h <;> rw [h] <;> decide
   unfold fsmEstablished
-  simp only [hs]
+  simp only [hs, hf, ne_eq, not_true_eq_false, if_false]
   split
   · exact ⟨_, rfl⟩
   · exact ⟨_, rfl⟩
@@ -331,6 +331,51 @@ theorem notify_then_query (ver : Nat) (s : Sock) (now : Int) (ev : Ev) (rest : L
 theorem trace_polls_within_timeout (ver : Nat) (s : Sock) (now : Int) (evs : List Ev) :
     pollsOk (fsmEstablished ver s now evs) = true :=
   fsmEstablished_pollsOk ver evs s now
+
+/-! ### PDUs that arrive in pieces (tr_recv_all's loop)
+
+    The wait of `rtr_wait_for_sync` is a `tr_recv_all` for the PDU header with the timeout of
+    `poll_deadline`, followed (once the header is complete) by a `tr_recv_all` for the rest of the
+    PDU with RTR_RECV_TIMEOUT.  A cache can deliver the PDU byte by byte at times of its choosing. -/
+
+/-- the slack the client grants a cache for the remainder of a PDU whose header has arrived -/
+theorem recv_slack : Gen.RTR_RECV_TIMEOUT = 60 := by decide
+
+/-- **frag_poll_deadline.**  Whatever fragments the cache sends and whenever it sends them, for
+    every socket and clock reading: EVERY timeout handed to the transport receive function while
+    the header is incomplete is non-negative and equals the time left until
+    `max now (last_update + refresh_interval)` (so a fragment arriving in the last second, or at the
+    deadline itself, never buys the cache more time); every timeout for the rest of the PDU is
+    within `0 … RTR_RECV_TIMEOUT`; `rtr_wait_for_sync` returns (and the state machine sends its
+    Serial Query) no later than the deadline if the header did not arrive completely, and no later
+    than deadline + RTR_RECV_TIMEOUT otherwise. -/
+theorem frag_poll_deadline (s : Sock) (now : Int) (body : Nat) (fr : List Frag) :
+    let p := waitPdu s now body fr
+    let deadline := max now (s.lastUpdate + (s.refresh.toNat : Int))
+    (∀ c ∈ p.hcalls, 0 ≤ c.timeout ∧ c.now + c.timeout = deadline ∧ now ≤ c.now) ∧
+    (∀ c ∈ p.bcalls, 0 ≤ c.timeout ∧ c.timeout ≤ 60 ∧ now ≤ c.now) ∧
+    now ≤ p.now ∧ p.now ≤ deadline + 60 ∧ (p.bcalls = [] → p.now ≤ deadline) := by
+  have h := receivePdu_spec body (waitTimeout s now) now fr (waitTimeout_nonneg s now)
+  have hd := (poll_deadline s now).2
+  have hs : ((Gen.RTR_RECV_TIMEOUT : Nat) : Int) = 60 := by rw [recv_slack]; rfl
+  rw [hs, hd] at h
+  exact h
+
+/-- in a run of the state machine: a Serial Notify that arrives in fragments (followed by silence)
+    is answered by the Serial Query the moment `rtr_wait_for_sync` returns, which is no later than
+    `max now (last_update + refresh_interval) + RTR_RECV_TIMEOUT`; the trace shows every transport
+    receive call of the wait -/
+theorem frag_then_query (ver : Nat) (s : Sock) (now : Int) (ev : Ev) (rest : List Ev) (hf : ev.frags ≠ []) :
+    let p := waitPdu s now notifyBody ev.frags
+    (∃ tl, fsmEstablished ver s now (ev :: rest) =
+      .wait (waitTimeout s now) now :: callItems (p.hcalls ++ p.bcalls) ++ .send 1 p.now :: tl) ∧
+    p.now ≤ max now (s.lastUpdate + (s.refresh.toNat : Int)) + 60 := by
+  refine ⟨?_, (frag_poll_deadline s now notifyBody ev.frags).2.2.2.1⟩
+  unfold fsmEstablished
+  simp only [hf, ne_eq, not_false_eq_true, if_true]
+  split
+  · exact ⟨_, rfl⟩
+  · exact ⟨[], rfl⟩
 
 /-! ### non-vacuity -/
 
@@ -345,7 +390,19 @@ example : waitTimeout { refresh := 3600, expire := 7200, retry := 600, ivMode :=
 example : waitTimeout { refresh := 3600, expire := 7200, retry := 600, ivMode := 2, lastUpdate := 1000 } 9000 = 0 := by decide
 
 example : fsmTrace { refresh := 3600, expire := 7200, retry := 600, ivMode := 2 } 1 100 7200 10 600
-    [⟨.serialNotify, 4, 7200, 20, 600⟩, ⟨.otherPdu, 5, 0, 0, 0⟩, ⟨.timeout, 0, 7200, 20, 600⟩] =
+    [⟨.serialNotify, 4, 7200, 20, 600, []⟩, ⟨.otherPdu, 5, 0, 0, 0, []⟩, ⟨.timeout, 0, 7200, 20, 600, []⟩] =
     [.send 2 100, .wait 10 100, .send 1 104, .wait 20 104, .wait 15 109, .send 1 124, .wait 20 124] := by decide
+
+/-- one byte of a header in the very last second of the refresh interval, then silence: the second
+    transport call gets timeout 0 and the wait ends at the deadline -/
+example : waitPdu { refresh := 100, expire := 7200, retry := 600, ivMode := 0, lastUpdate := 1000 } 1000 4 [⟨100, 1⟩] =
+    ⟨[⟨8, 100, 1000⟩, ⟨7, 0, 1100⟩], [], 1100, false⟩ := by decide +kernel
+/-- header byte by byte, complete exactly at the deadline; the rest within RTR_RECV_TIMEOUT -/
+example : waitPdu { refresh := 10, expire := 7200, retry := 600, ivMode := 0, lastUpdate := 1000 } 1003 4
+      [⟨6, 7⟩, ⟨1, 1⟩, ⟨60, 4⟩] =
+    ⟨[⟨8, 7, 1003⟩, ⟨1, 1, 1009⟩], [⟨4, 60, 1010⟩], 1070, true⟩ := by decide +kernel
+example : fsmTrace { refresh := 3600, expire := 7200, retry := 600, ivMode := 2 } 1 100 7200 10 600
+    [⟨.serialNotify, 0, 7200, 20, 600, [⟨9, 3⟩, ⟨1, 9⟩]⟩] =
+    [.send 2 100, .wait 10 100, .recv 8 10 100, .recv 5 1 109, .recv 4 60 110, .send 1 110, .wait 20 110] := by decide
 
 end Rtr.C17
